@@ -125,6 +125,7 @@ inline void setup_world() {
   w.zones["B"] = b.bytes;
   w.zones["R"] = c.bytes;    // rule-extended zone (big table) for lookup harnesses
   w.zones["BAD"] = std::string("TZif2") + std::string(60, '\0');  // served but rejected by Load
+  w.zones["file:B"] = a.bytes;  // a name that differs from "B" only by the file: prefix (and serves other data)
   // "X" is not served at all (factory returns nullptr)
   cctz_extension::zone_info_source_factory = Factory;
 }
@@ -251,6 +252,8 @@ inline std::vector<Harness> harnesses() {
   const std::string OOR = "Fixed/UTC+25:00:00";
   h.push_back({"H5b", "out-of-range fixed-shaped name racing itself and a real zone", {{L(OOR)}, {L(OOR)}, {L("A")}}, {}, true});
   h.push_back({"H5c", "UTC0 / fixed / local_time_zone / default zone", {{L("UTC0"), Op{Op::LOCAL, "", 0}}, {Op{Op::FIXED, "", -1}, L("Fixed/UTC-00:00:01")}, {Op{Op::LOCAL, "", 0}, Op{Op::UTC, "", 0}}}, {}, false});
+  h.push_back({"H5d", "names differing only by a file: prefix, racing", {{L("file:B")}, {L("file:B")}, {L("B")}}, {}, true});
+  h.push_back({"H5e", "zero-offset fixed name and UTC0 next to a real first load", {{L("Fixed/UTC+00:00:00"), L("UTC0")}, {L("A")}, {L("Fixed/UTC-00:00:00")}}, {}, false});
   h.push_back({"H6", "loads mixed with lookups on the shared Impl",
                {{L("A"), TP(-1900000000LL), CS(-1900000000LL - 18000)}, {L("A"), TP(-1700000000LL), CS(-1700000000LL - 18000), Op{Op::NEXT, "", -1950000000LL}}}, {}, true});
   h.push_back({"H7", "three threads looking up a pre-loaded zone (hint words)",
